@@ -526,16 +526,36 @@ def memo_trigger(trace, upto):
     return False
 
 
-def twin_trigger(trace, upto, c):
-    """Trigger class of the value-equal-twin defect: the listing of c was read before c was unrolled, while c contained a
-    block that (after the listing's hand-over of the parent relation) equals one of its ancestors by value: same repetition
-    term and no relation of its own."""
+def twin_trigger(trace, upto, c=None):
+    """Trigger class of the value-equal-twin defect: the listing of a circuit x was read (any observation that lists x: it hands
+    x's relation object to its relation-less entries) while x contained a block that then equals x by value (same repetition
+    term, no relation of its own), and afterwards x was copied (nested somewhere, copied, or unrolled)."""
+    comps = {}                       # id -> [rep term, has own relation, home]
     for k, e in enumerate(trace[:upto]):
-        if e['ev'] == 'Obs' and e['c'] == c and 'snap' in e:
-            comps = e['snap']['comps']
-            twins = any(a['id'] != b['id'] and a['rep'] == b['rep'] and a['rlink']['k'] == b['rlink']['k'] == 'none'
-                        for a in comps.values() for b in comps.values())
-            if twins and any(x['ev'] == 'Apply' and x['c'] == c for x in trace[k:upto]):
+        ev = e['ev']
+        if ev == 'NewCircuit':
+            comps[e['c']] = [e['rep'], e['link']['k'] != 'none', '']
+        elif ev in ('AddSub', 'CopyCirc', 'Adopt'):
+            for i, r in (e.get('recs') or {}).items():
+                if r.get('t') == 'comp':
+                    home = (e.get('tree') or {}).get(i, {}).get('home', '')
+                    comps[i] = [r['rep'], (e.get('links') or {}).get(i, {'k': 'none'})['k'] != 'none', home]
+            if ev == 'AddSub' and e['id'] in comps:
+                comps[e['id']][2] = e['c']
+                comps[e['id']][1] = e['after']['k'] != 'none'
+        elif ev == 'Obs':
+            x = e['c']
+
+            def inside(i):
+                seen = 0
+                while i and seen < 1000:
+                    i = comps.get(i, [None, None, ''])[2]
+                    seen += 1
+                    if i == x:
+                        return True
+                return False
+            twins = x in comps and not comps[x][1] and any(i != x and inside(i) and not v[1] and v[0] == comps[x][0] for i, v in comps.items())
+            if twins and any((y['ev'] == 'Apply' and y['c'] == x) or (y['ev'] in ('AddSub', 'CopyCirc') and y.get('s') == x) for y in trace[k:upto]):
                 return True
     return False
 
@@ -558,7 +578,7 @@ def signature(f, ev, trace, prog):
     if cl == 'C05.iso.link.late_member':
         return 'group-member-copied-late'
     if cl.startswith('C07.') and ev.get('ev') == 'Obs' and ('<<-1,' in f['info'] or cl in ('C07.monotone', 'C07.filter.qubit', 'C07.filter.tag', 'C07.partition')):
-        if twin_trigger(trace, f['l'] - 1, ev['c']):
+        if twin_trigger(trace, f['l'] - 1):
             return 'twin-circuit-registry'
     if cl == 'C01.frame' and ev.get('ev') == 'Obs':
         snap = ev['snap']
@@ -635,7 +655,7 @@ def erasure(v, programs, traces, prefix='C03.erasure'):
                     (memo_trigger(ta, len(ta)) or memo_trigger(tbk, len(tbk))):
                 sig = 'stale-memo'
             elif cl in ('C03.erasure.operation', 'C03.erasure.indices', 'C03.erasure.export') and \
-                    any(twin_trigger(ta, len(ta), c) for c in fa):
+                    twin_trigger(ta, len(ta)):
                 sig = 'twin-circuit-registry'
             v.fail(cl.replace('C03.erasure', prefix), {'trace': i, 'obj': obj}, signature=sig, replay={'program': programs[i], 'erased': erased[f['row'] - 1]})
     return {'twin_histories': len(rows), 'tlc_states': r.distinct, 'rejected_pairs': len(res['fails'])}
